@@ -32,8 +32,9 @@ ENTRY = [
     "consensus::wallet::Wallet::deserialize_from_disk",
     "consensus::slip::Slip::parse_slip_from_utxokey",
 ]
-BYTE_BUF = ("&[u8]", "&std::vec::Vec<u8>", "std::vec::Vec<u8>", "&mut [u8]", "&mut std::vec::Vec<u8>")
-SLICE_SELF = ("[", "std::vec::Vec<", "&[", "&std::vec::Vec<")
+BYTE_BUF = ("&[u8]", "&std::vec::Vec<u8>", "std::vec::Vec<u8>", "&mut [u8]", "&mut std::vec::Vec<u8>",
+            "std::string::String", "&std::string::String", "&str")
+SLICE_SELF = ("[", "std::vec::Vec<", "&[", "&std::vec::Vec<", "str", "&str", "std::string::String", "&std::string::String")
 
 
 class StableChaser(Chaser):
@@ -417,6 +418,12 @@ class DecoderAnalysis:
         # local callee that receives input bytes: analyse it in this context
         res = t.get("res") or t.get("callee")
         callee = self.prog.bodies.get(res) if res else None
+        if callee is None and name in ("std::convert::TryInto::try_into", "std::convert::Into::into") and len(t.get("cargs", [])) >= 2:
+            # `x.try_into()` / `x.into()` run the workspace's `impl TryFrom<T> for U` / `impl From<T> for U` through std's blanket impl
+            src_ty, dst_ty = body.tyix(t["cargs"][0])["s"], body.tyix(t["cargs"][1])["s"]
+            tr = "std::convert::TryFrom" if name.endswith("try_into") else "std::convert::From"
+            fn = "try_from" if name.endswith("try_into") else "from"
+            callee = self.prog.bodies.get("<%s as %s<%s>>::%s" % (dst_ty, tr, src_ty, fn))
         if callee is None or callee.is_promoted or t.get("rkind") == "Virtual":
             return
         ctx = []
